@@ -256,3 +256,17 @@ M("C07", "sge-mapping-writes-genotype", SGE, "        rand: RandomSource = Struc
 M("C07", "twin-rename-source", GE, "        rand: RandomSource = ListWrapper(genotype.dna)\n        return random_node(rand,", "        source: RandomSource = ListWrapper(genotype.dna)\n        return random_node(source,", "", expect="silent")
 M("C07", "twin-stack-local-wrapper", STK, "return create_tree_using_stacks(self.grammar, ListWrapper(genotype.dna), failures_limit=self.failures_limit)",
   "wrapper = ListWrapper(genotype.dna)\n        return create_tree_using_stacks(self.grammar, wrapper, failures_limit=self.failures_limit)", "", expect="silent")
+
+# ------------------------------------------------------------------------------------- C08
+M("C08", "dsge-crossover-key-union", DSGE, "        keys = parent1.dna.keys()\n\n        mask", "        keys = parent1.dna.keys() | parent2.dna.keys()\n\n        mask", "C08.R1")
+M("C08", "grammar-first-terminal", GRM, "    def get_min_tree_depth(self):", "    def any_terminal(self):\n        return next(iter(self.terminals))\n\n    def get_min_tree_depth(self):", "C08.R1")
+M("C08", "decider-global-random", INI, "        return self.random.choice(alternatives)\n\n\nclass MaxDepthDecider", "        import random as _r\n        return _r.choice(alternatives)\n\n\nclass MaxDepthDecider", "C08.R3")
+M("C08", "mutation-seeded-by-time", MUT, "                v = random.random_float(0, 1)\n", "                import time\n                v = (time.time() % 1.0)\n", "C08.R3")
+M("C08", "id-as-tiebreak", HLP, "key=lambda x: x.get_fitness(problem).maximizing_aggregate, reverse=True)", "key=lambda x: (x.get_fitness(problem).maximizing_aggregate, id(x)), reverse=True)", "C08.R3")
+M("C08", "tracker-shared-default-evaluator", TRK, "        evaluator: Evaluator = None,\n        recorders: list[SearchRecorder] = None,\n    ):\n        super().__init__(problem, evaluator, recorders=recorders)\n\n        self.best_individual = None",
+  "        evaluator: Evaluator = SequentialEvaluator(),\n        recorders: list[SearchRecorder] = None,\n    ):\n        super().__init__(problem, evaluator, recorders=recorders)\n\n        self.best_individual = None", "C08.R4")
+M("C08", "module-level-cache", "geneticengine/grammar/utils.py", "def is_abstract(t: type) -> bool:\n    \"\"\"Returns whether a class is a Protocol or AbstractBaseClass.\"\"\"\n",
+  "_ABS: dict = {}\n\n\ndef is_abstract(t: type) -> bool:\n    \"\"\"Returns whether a class is a Protocol or AbstractBaseClass.\"\"\"\n    if t in _ABS:\n        return _ABS[t]\n    _ABS[t] = False\n", "C08.R4")
+M("C08", "native-global-rng", SRC, "        return self.random.randint(min, max)", "        return random.randint(min, max)", "C08.R2")
+M("C08", "twin-sorted-set-iteration", GRM, "        return max(list(map(dist, self.all_nodes)))", "        return max(dist(x) for x in self.all_nodes)", "", expect="silent")
+M("C08", "twin-mentioned-symbols-set-call", GRM, "return {x for t in self.get_all_symbols()[2] for x in self.collect_types(t)}", "return set(x for t in self.get_all_symbols()[2] for x in self.collect_types(t))", "", expect="silent")
